@@ -58,6 +58,8 @@ def gen_case(rng, tier, wide=False):
         "objective_none": kind == "proximity" and rng.random() < 0.6,
         "ncell": rng.choice([1, 2, 3, GRID_ALL]),
     }
+    if rng.random() < 0.3:
+        case["wrap"] = rng.choice(["series", "series", "list"])
     nops = rng.randint(4, 14 if tier == "quick" else 30)
     ops, phase, next_id = [], None, 1
     p_illegal = rng.choice([0.0, 0.3, 0.3, 0.45])
@@ -191,6 +193,20 @@ def run_impl(case, mode=None):
                 mops.append([0 if name == "ask" else 1, resp])
             else:
                 arrays, jac, cols, jac_ids, fail, m = tell_payload(case, op, cur_ids)
+                if case.get("wrap"):
+                    # array-likes other than ndarrays: plain lists, or pandas Series whose integer LABELS are a permutation of the positions
+                    # (row i of every argument belongs to solution i by POSITION)
+                    wr = random.Random(k * 7919 + len(cur_ids))
+                    for f in list(arrays):
+                        a_ = arrays[f]
+                        if isinstance(a_, np.ndarray) and a_.ndim == 1 and a_.dtype != object:
+                            if case["wrap"] == "series":
+                                import pandas as pd
+                                lab = list(range(len(a_)))
+                                wr.shuffle(lab)
+                                arrays[f] = pd.Series(a_, index=lab)
+                            else:
+                                arrays[f] = a_.tolist()
                 try:
                     if name == "tell":
                         sch.tell(arrays["objective"], arrays["measures"], **{f: arrays[f] for f in case["extra"]})
